@@ -56,8 +56,10 @@ inductive Node where
   | callFn (name : Name) (pos : Int) (params : Node) (useParen inTell withResult : Bool)
   /-- CallMethod -/
   | callMethod (name : Name) (pos : Int) (obj params : Node)
-  /-- RepeatOperation (name 'repeat'); `type` ∈ while / for / for_in; `sign` '+' / '-' / '' -/
-  | repeat_ (pos endPos : Int) (cond : Node) (stmts : List Node) (type : Str) (start stop : Node) (varname : Name) (sign : Str)
+  /-- RepeatOperation (name 'repeat'); `type` ∈ while / for / for_in; `sign` '+' / '-' / ''.
+      Python's `ro.end` is the very object `ro.condition.right` (set by loop_detect, never reassigned), so it is not
+      stored: see `Node.repeatEnd`. -/
+  | repeat_ (pos endPos : Int) (cond : Node) (stmts : List Node) (type : Str) (start : Node) (varname : Name) (sign : Str)
   /-- IfThenOperation (name 'if-then') -/
   | ifThen (pos : Int) (cond : Node) (ifs elses : List Node)
   /-- JumpOperation (name 'jump') -/
@@ -222,7 +224,7 @@ mutual
     | .stmt _ x => 1 + x.weight
     | .callFn _ _ p _ _ _ => 1 + p.weight
     | .callMethod _ _ a b => 1 + a.weight + b.weight
-    | .repeat_ _ _ c l _ a b _ _ => 1 + c.weight + weightList l + a.weight + b.weight
+    | .repeat_ _ _ c l _ a _ _ => 1 + c.weight + weightList l + a.weight
     | .ifThen _ c a b => 1 + c.weight + weightList a + weightList b
     | .jump .. => 1
     | .jz _ c _ => 1 + c.weight
